@@ -155,6 +155,10 @@ class SArray:
     def __array_ufunc__(s, ufunc, method, *inputs, out=None, **kw):
         return _ufunc(ufunc, method, inputs, out, kw)
     def __array_function__(s, func, types, args, kwargs):
+        # defer to foreign array-likes that implement the protocol themselves (nutils function arrays, SI quantities wrapping symbolic magnitudes):
+        # they unwrap their payload and call back into NumPy, which then dispatches to this class
+        if any(t is not SArray and not issubclass(t, (numpy.ndarray, Sym)) and hasattr(t, '__array_function__') for t in types):
+            return NotImplemented
         h = HANDLED.get(func)
         if h is None:
             return _concrete_fallback(func, args, kwargs)
